@@ -272,6 +272,15 @@ func init() {
 			}
 			return StrV{Bytes: bs}
 		},
+		// vSegName(pattern string, id int) string: opaque formatted name
+		"vSegName": func(in *Interp, st *State, fr *Frame, fn *ssa.Function, args []Value) Value {
+			pat := mustStr(args[0], "vSegName pattern")
+			pat = strings.ReplaceAll(strings.ReplaceAll(pat, "$Number$", "%d"), "$Time$", "%d")
+			if c, ok := args[1].(*Term).ConstInt64(); ok {
+				return StrV{S: strings.ReplaceAll(pat, "%d", strconv.Itoa(int(c)))}
+			}
+			return StrV{Fmt: &OpaqueFmt{Format: pat, Args: []Value{args[1]}}}
+		},
 		// vInf() float64: +Inf
 		"vInf": func(in *Interp, st *State, fr *Frame, fn *ssa.Function, args []Value) Value {
 			return InfV{}
@@ -486,6 +495,19 @@ func init() {
 			return IntC(int64(strings.Index(mustStr(args[0], "strings.Index"), mustStr(args[1], "strings.Index"))))
 		},
 		"path.Ext": func(in *Interp, st *State, fr *Frame, fn *ssa.Function, args []Value) Value {
+			if sv, ok := args[0].(StrV); ok && sv.Fmt != nil {
+				// extension of a formatted name is that of its format when no verb follows the last dot
+				f := sv.Fmt.Format
+				for i := len(f) - 1; i >= 0 && f[i] != '/'; i-- {
+					if f[i] == '%' {
+						break
+					}
+					if f[i] == '.' {
+						return StrV{S: f[i:]}
+					}
+				}
+				panic(unsupported("path.Ext of opaque string"))
+			}
 			s := mustStr(args[0], "path.Ext")
 			for i := len(s) - 1; i >= 0 && s[i] != '/'; i-- {
 				if s[i] == '.' {
